@@ -21,6 +21,10 @@ class C04(Check):
     trusted = ["hex/base64/base32 text codecs of Go's encoding/* are outside the model (fields held as the octets they denote)",
                "EDNS0 option and SVCB parameter values are (code, packed value, reported length) triples at this level"]
 
+    partial = ["transparency at the Msg.Unpack level is proved modulo Hdr.Rdlength (it necessarily differs between the two packings) and "
+               "for canonical field values (C01's rr_ok / fields_canon), as agreement of both decoded messages with the packed "
+               "message field by field rather than as literal equality of the two decoded values"]
+
     def nontrivial(self, c):
         return len(c["args"][0]) > 80
 
